@@ -310,6 +310,21 @@ func (r *replicator) processHash(ctx context.Context, item processItem) ([]cid.C
 		}
 	}
 
+	// an entry reached through a link is fetched by the address the link gives and
+	// the decoder stamps it with that address: make sure the content really hashes
+	// to it (a link may name the block by an address of another codec), as Sync does
+	// for announced heads
+	for _, e := range l.Values().Slice() {
+		written, err := r.store.IO().Write(ctx, r.store.IPFS(), e, nil)
+		if err != nil {
+			return nil, fmt.Errorf("unable to verify the address of entry %s: %w", e.GetHash().String(), err)
+		}
+
+		if written.String() != e.GetHash().String() {
+			return nil, fmt.Errorf("entry fetched as %s hashes to %s", e.GetHash().String(), written.String())
+		}
+	}
+
 	r.muBuffer.Lock()
 	r.buffer = append(r.buffer, l)
 	r.muBuffer.Unlock()
